@@ -38,7 +38,7 @@ CHECKS = {
   technique="Lean 4 proof (list algebra over histories + C01 invariant) + differential correspondence"),
  "C13": dict(
   category="proof",
-  text="Lean 4 theorems over a model of SimulationEntry.build, DamageCalculator totals/dpm, DamageShareFeature and the two-pointer window scan: totals equal sums per action and per skill, shares non-negative and summing to one, every qualifying event counted exactly once with buff+modifier, and two_pointer_eq_exhaustive: for sorted clocks and positive window length the scan returns the exhaustive maximum over shortest qualifying windows and its indices reproduce the value (fuel sufficiency proved). The scan and the report pipeline are compared with the real code on exhaustive small and random sequences and on real runs.",
+  text="(Part file C13_Calc: with the model of DamageCalculator.get_damage of property C12 in the place of the parameter — damage_event_contribution, dot_event_contribution, contribution_scales_with_hits: every hit of every DAMAGE / DOT event counts; tied by comparing get_damage on the logs of real runs with the model.) Lean 4 theorems over a model of SimulationEntry.build, DamageCalculator totals/dpm, DamageShareFeature and the two-pointer window scan: totals equal sums per action and per skill, shares non-negative and summing to one, every qualifying event counted exactly once with buff+modifier, and two_pointer_eq_exhaustive: for sorted clocks and positive window length the scan returns the exhaustive maximum over shortest qualifying windows and its indices reproduce the value (fuel sufficiency proved). The scan and the report pipeline are compared with the real code on exhaustive small and random sequences and on real runs.",
   design_ref="DESIGN.md §4 C13",
   note="Trusted: Lean kernel + standard axioms; hand model tied by differential correspondence; damage-per-log abstract (its formula is C12); known finding F12 (window length <= 0 raises).",
   technique="Lean 4 proof (loop invariant of the two-pointer scan, sum rearrangements) + differential correspondence"),
